@@ -34,7 +34,7 @@ static size_t mgr_sz;
 #define P_QUEUE_SIZE(m) X_QUEUE_SIZE(m)
 #endif
 
-enum { K_NEXT, K_SUBMIT, K_FLUSH, K_GETC, K_QSIZE, K_D_GCM, K_D_SHA256, K_D_ZUC, K_D_CRC, K_D_SNOW3G };
+enum { K_NEXT, K_SUBMIT, K_FLUSH, K_GETC, K_QSIZE, K_D_GCM, K_D_SHA256, K_D_ZUC, K_D_CRC, K_D_SNOW3G, K_D_QUIC };
 typedef struct {
         int kind;
         const char *alg;
@@ -54,7 +54,7 @@ static const op_t PROG[NPROG][PLEN] = {
         /* wireless + AEAD */
         { { K_NEXT, "snow3g-uea2", 1, 296, 0 }, { K_SUBMIT }, { K_NEXT, "zuc-eea3-128", 1, 57, 0 }, { K_SUBMIT }, { K_FLUSH }, { K_FLUSH } },
         /* direct API */
-        { { K_D_GCM, NULL, 1, 77, 0 }, { K_D_SHA256, NULL, 1, 90, 0 }, { K_D_ZUC, NULL, 1, 61, 0 }, { K_D_CRC, NULL, 1, 99, 0 }, { K_D_SNOW3G, NULL, 1, 45, 0 }, { K_QSIZE } },
+        { { K_D_GCM, NULL, 1, 77, 0 }, { K_D_SHA256, NULL, 1, 90, 0 }, { K_D_ZUC, NULL, 1, 61, 0 }, { K_D_CRC, NULL, 1, 99, 0 }, { K_D_SNOW3G, NULL, 1, 45, 0 }, { K_D_QUIC, NULL, 1, 70, 0 } },
         /* DES lanes + CCM + get_completed */
         { { K_NEXT, "des-cbc", 1, 40, 0 }, { K_SUBMIT }, { K_NEXT, "aes-ccm-128", 1, 48, 0 }, { K_SUBMIT }, { K_GETC }, { K_FLUSH } },
         /* AEAD: GCM encrypt + CCM-256 decrypt */
@@ -167,6 +167,16 @@ step(mctx_t *c, const op_t *o)
         case K_D_SNOW3G: {
                 MON("snow3g_init_key_sched", IMB_SNOW3G_INIT_KEY_SCHED(m, keyset_raw(c->ks), &c->sk));
                 MON("snow3g_f8_1_buffer", IMB_SNOW3G_F8_1_BUFFER(m, &c->sk, c->wb[3].iv, c->wb[3].src, c->wb[3].dst, o->len));
+                return job_obs(c, NULL);
+        }
+        case K_D_QUIC: { /* QUIC batch helpers (AES-GCM packets + header-protection masks) */
+                void *dst[2] = { c->wb[0].dst, c->wb[1].dst }, *tg[2] = { c->wb[0].tag, c->wb[1].tag };
+                const void *src[2] = { c->wb[0].src, c->wb[1].src }, *ivs[2] = { c->wb[0].iv, c->wb[1].iv }, *aads[2] = { c->wb[0].aad, c->wb[1].aad };
+                uint64_t lens[2] = { o->len, o->len / 2 + 1 };
+                MON("quic_aes_gcm", imb_quic_aes_gcm(m, &c->gk, IMB_KEY_128_BYTES, IMB_DIR_ENCRYPT, dst, src, lens, ivs, aads, 8, tg, 16, 2));
+                void *hp[2] = { c->wb[2].dst, c->wb[3].dst };
+                const void *smp[2] = { c->wb[2].src, c->wb[3].src };
+                MON("quic_hp_chacha20", imb_quic_hp_chacha20(m, keyset_raw(c->ks), hp, smp, 2));
                 return job_obs(c, NULL);
         }
         }
